@@ -139,6 +139,12 @@ def drain(sock):
     the close then takes effect after them"""
     n = 0
     try:
+        # first stop accepting (from here on the emulator's writes fail with EPIPE), then count what it had written before
+        # that instant: without this, a message written between the last empty read and the close would succeed uncounted
+        try:
+            sock.shutdown(socket.SHUT_RD)
+        except OSError:
+            pass
         sock.setblocking(False)
         while True:
             m = sock.recv(65536)
